@@ -278,7 +278,8 @@ def step? (s : St) : Act → Option St
         | .handOff m held => .handOff (u m) (held.map u)
         | .drain rest => .drain (upd rest)
         | d => d
-      some { s with blocked := upd s.blocked, chan := upd s.chan, limbo := upd s.limbo, disp := disp' }
+      -- SetPriority consults the adjust functions of the waiting items whatever the target was
+      some { s with blocked := upd s.blocked, chan := upd s.chan, limbo := upd s.limbo, disp := disp', heap := adjustAll s s.heap }
 
 /-- what `Dequeue(id)` returns in state `s` (repaired, F14). -/
 def dequeueRet (s : St) (id : Nat) : Ret :=
